@@ -114,6 +114,15 @@ def unit_env(item):
             loaded = load_npz_to_tensordict(f)
             if same_td(td0, loaded, p, spec, "npz_roundtrip", rec):
                 bisimulate(spec, env, td0, env, loaded, p, "npz_roundtrip", rec)
+            # (a'') a file written in double precision (plain numpy / external benchmark data): dtypes and values survive
+            td64 = td0.clone()
+            for k_ in list(td64.keys()):
+                if td64[k_].dtype == torch.float32:
+                    td64.set(k_, td64[k_].double() + 1e-12)
+            f64 = os.path.join(d, "inst64.npz")
+            save_tensordict_to_npz(td64, f64)
+            p.add(states=1, evaluations=1)
+            same_td(td64, load_npz_to_tensordict(f64), p, spec, "npz_roundtrip_float64", rec)
             # (a') the environment's own loader where it reads this format (base implementation, MTVRP)
             from rl4co.envs.common.base import RL4COEnvBase
 
@@ -438,6 +447,15 @@ def unit_ckpt(item):
         model = POMO(env, policy, num_starts=2, num_augment=8, **common)
     elif algo == "a2c":
         model = A2C(env, policy, critic=critic(), **common)
+    elif algo == "amppo:heads4":
+        # a zoo model that builds its own default policy when none is given, handed a policy OBJECT whose configuration
+        # differs from that default without changing any parameter shape (4 attention heads instead of 8)
+        from rl4co.models.zoo import AMPPO
+        from rl4co.models.zoo.am import AttentionModelPolicy
+
+        torch.manual_seed(31)
+        policy = AttentionModelPolicy(env_name=env.name, num_heads=4, num_encoder_layers=1)
+        model = AMPPO(env, policy=policy, ppo_epochs=1, mini_batch_size=2, **common)
     else:
         model = PPO(env, policy, critic=critic(), ppo_epochs=1, mini_batch_size=2, **common)
     d = tempfile.mkdtemp(prefix="c19_", dir=_scratch())
@@ -451,7 +469,16 @@ def unit_ckpt(item):
         kw = {}
         if algo in ("a2c", "ppo") or algo == "reinforce:critic":
             kw = dict(critic=critic()) if algo in ("a2c", "ppo") else dict(baseline=CriticBaseline(critic()))
-        loaded = type(model).load_from_checkpoint(path, env=env, policy=make("am_inst", env, 0, train=True), weights_only=False, **kw)
+        # first the plain user call (everything comes from the checkpoint's saved hyper-parameters, the policy OBJECT with its
+        # configuration included); only if that is impossible on this tree, with the constructor arguments supplied again
+        try:
+            loaded = type(model).load_from_checkpoint(path, weights_only=False)
+            p.add(plain_loads=1)
+        except Exception as e_plain:  # noqa: BLE001
+            if algo.startswith("amppo"):
+                raise
+            p.note(f"{algo}: load_from_checkpoint(path) without arguments fails ({type(e_plain).__name__}: {str(e_plain)[:80]}); loaded with env / policy supplied")
+            loaded = type(model).load_from_checkpoint(path, env=env, policy=make("am_inst", env, 0, train=True), weights_only=False, **kw)
         p.add(states=1, evaluations=1, transitions=steps)
         p.case(cfg)
         # policy parameters
@@ -522,7 +549,7 @@ def main(tier):
             items.append(("dataset", name, size, tier, seed))
     for k in ("fjsp:mask", "jssp:mask"):
         items.append(("parser", k, tier, seed))
-    algos = ["reinforce:no", "reinforce:exponential", "reinforce:rollout", "reinforce:critic", "pomo", "a2c", "ppo"]
+    algos = ["reinforce:no", "reinforce:exponential", "reinforce:rollout", "reinforce:critic", "pomo", "a2c", "ppo", "amppo:heads4"]
     for a in algos:
         for steps in (0, 1):
             items.append(("ckpt", a, steps, tier, seed))
